@@ -65,6 +65,7 @@ class World(object):
         self.sub_wf_started = []
         self.forced_fail = 0
         self.server_errors = []   # exceptions raised by EngineServer methods
+        self.cas_loss = None      # armed lost-compare-and-swap injection
 
     def add(self, ev):
         self.seq += 1
@@ -379,10 +380,47 @@ def _memo_check_schema():
     jsonschema.validate = validate
 
 
+def arm_cas_loss(wf_ex_id, state, msg):
+    """Fault injection below the transaction granularity: the next
+    compare-and-swap of that workflow execution towards a final state loses
+    against a concurrent operator stop.  The foreign commit is emulated by a
+    direct UPDATE of the row (state, state_info, output) issued right before
+    the compare-and-swap on the same connection, so that the ORM objects of
+    the losing transaction stay stale - exactly what a transaction of
+    another engine process committing in that window produces."""
+    W.cas_loss = {'id': wf_ex_id, 'state': state, 'msg': msg}
+
+
+def _maybe_lose_cas(fn, kw):
+    inj = W.cas_loss
+    if not inj or fn != 'update_workflow_execution_state' \
+            or kw.get('id') != inj['id'] \
+            or kw.get('state') not in ('SUCCESS', 'ERROR', 'CANCELLED') \
+            or kw.get('state') == inj['state']:
+        return
+    import json
+    import sqlalchemy as sa
+    ses = _mods['sa_base']._get_thread_local_session()
+    if ses is None:
+        return
+    W.cas_loss = None
+    out = json.dumps({'result': inj['msg']})
+    ses.execute(sa.text(
+        'UPDATE workflow_executions_v2 SET state=:s, state_info=:m, '
+        'output=:o, accepted=1 WHERE id=:i AND state=:c'),
+        {'s': inj['state'], 'm': inj['msg'], 'o': out, 'i': inj['id'],
+         'c': kw.get('cur_state')})
+    W.cas.append({'fn': fn, 'id': inj['id'], 'from': kw.get('cur_state'),
+                  'to': inj['state'], 'matched': True, 'step': W.step,
+                  'event': W.cur_event, 'injected': True,
+                  'output': {'result': inj['msg']}})
+
+
 def _wrap_cas(fn):
     orig = getattr(db_api, fn)
 
     def wrapper(*a, **kw):
+        _maybe_lose_cas(fn, kw)
         res = orig(*a, **kw)
         W.cas.append({'fn': fn, 'id': kw.get('id'),
                       'from': kw.get('cur_state'), 'to': kw.get('state'),
